@@ -92,7 +92,8 @@ pub struct Step {
     pub flag: bool,
     /// relation of the operand to the accumulator: 0 (or absent) = `x` as given; 1: x := acc;
     /// 2: x := -acc; 3: x := acc + (rv << 64*(rk mod limbs)) * R^-1, i.e. a value whose
-    /// *Montgomery representation* differs from acc's in one limb; 4: x := acc + 2^(rk mod bits)
+    /// *Montgomery representation* differs from acc's in one limb; 4: x := acc + 2^(rk mod bits);
+    /// 5: x := the operand for which this (binary) step's result equals `y`
     #[serde(default)]
     pub rel: u8,
     #[serde(default)]
@@ -114,6 +115,24 @@ pub fn eff_x(f: &Fld, acc: &N, s: &Step) -> N {
             f.add(acc, &f.mul(&(d % &f.m), &rinv))
         }
         4 => f.add(acc, &((N::one() << (s.rk as u64 % f.bits as u64)) % &f.m)),
+        // the operand that makes this step's *result* equal to the target y (binary forms only)
+        5 => {
+            use FForm::*;
+            let t = &s.y.0 % &f.m;
+            match s.form {
+                AddVal | AddRef | AddMut | AddAssignVal | AddAssignRef | AddAssignMut | InhAdd => f.sub(&t, acc),
+                SubVal | SubRef | SubMut | SubAssignVal | SubAssignRef | SubAssignMut | InhSub => f.sub(acc, &t),
+                MulVal | MulRef | MulMut | MulAssignVal | MulAssignRef | MulAssignMut | InhMul => match f.inv(acc) {
+                    Some(i) => f.mul(&t, &i),
+                    None => t,
+                },
+                DivVal | DivRef | DivMut | DivAssignVal | DivAssignRef | DivAssignMut => match f.inv(&t) {
+                    Some(i) if !acc.is_zero() => f.mul(acc, &i),
+                    _ => N::one(),
+                },
+                _ => t,
+            }
+        }
         _ => &s.x.0 % &f.m,
     }
 }
@@ -401,6 +420,26 @@ macro_rules! runner {
                 }
                 ctx.class(&format!("{tag}:{}", s.form.name()));
                 ctx.class(&format!("{tag}:operand:{}", classify_fe(&x, &f.m)));
+                if bk == Bk::Min {
+                    use FForm::*;
+                    let inverted = match s.form {
+                        InhInverse => Some(&macc),
+                        DivVal | DivRef | DivMut | DivAssignVal | DivAssignRef | DivAssignMut => Some(&x),
+                        _ => None,
+                    };
+                    if let Some(v) = inverted {
+                        let n = crate::hard_inverse::divsteps(&f.m, v);
+                        // thresholds: about 60, 90 and 105 steps above the mean of random operands
+                        let (t1, t2, t3) = match f.bits { 377 => (840, 870, 885), 253 => (570, 590, 600), _ => (565, 585, 595) };
+                        if n >= t3 {
+                            ctx.class(&format!("{tag}:inverse-divsteps>={t3}"));
+                        } else if n >= t2 {
+                            ctx.class(&format!("{tag}:inverse-divsteps>={t2}"));
+                        } else if n >= t1 {
+                            ctx.class(&format!("{tag}:inverse-divsteps>={t1}"));
+                        }
+                    }
+                }
                 ctx.sub_eval();
                 let (lx, ly) = (conv(&x), conv(&y));
                 let k = (s.n % 4) as usize;
@@ -459,6 +498,10 @@ macro_rules! runner {
                             ctx.report(format!("C10|{tag}:{}|zero-has-inverse", s.form.name()), format!("step {i} ({:?}): the result is zero but inverse() returns a value", s.form))?;
                             return Ok(());
                         }
+                        let low = gen::mont_low_limb(&w, &f.m);
+                        if low <= 1 || low >= u32::MAX - 1 {
+                            ctx.class(&format!("{tag}:result-mont-low-limb-boundary"));
+                        }
                         acc = v;
                         macc = w;
                     }
@@ -509,6 +552,9 @@ fn exp_limbs() -> BoxedStrategy<Vec<u64>> {
     prop_oneof![
         2 => proptest::collection::vec(0u64..16, 0..=4),
         2 => gen::limb_vec(0..=4usize),
+        // exponents longer than the field (power / pow take any slice of limbs)
+        1 => gen::limb_vec(5..=9usize),
+        1 => (4usize..9, 1u64..4).prop_map(|(z, top)| { let mut v = vec![0u64; z]; v.push(top); v }),
         1 => (0u64..4096).prop_map(|e| vec![e]),
         1 => (0u64..8, 0u64..8).prop_map(|(a, b)| vec![a, b]),
     ]
@@ -523,6 +569,60 @@ pub fn step(forms: Vec<FForm>, m: N) -> impl Strategy<Value = Step> {
         .prop_map(move |(i, x, y, limbs, n_items, flag, rel, rk, rv)| Step { form: forms[pick(i, n)], x, y, limbs, n: n_items, flag, rel, rk, rv })
 }
 
+/// the operand for which the unary form's result is `t` (None: not a unary form on the accumulator)
+fn unary_preimage(f: &Fld, form: FForm, t: &N) -> Option<N> {
+    use FForm::*;
+    match form {
+        NegOp | InhNeg | FNegInPlace => Some(f.neg(t)),
+        InhSquare | FSquare | FSquareInPlace => Some(f.sqrt(t).or_else(|| f.sqrt(&f.mul(t, &f.nonresidue))).unwrap_or_default()),
+        InhInverse | FInverse | FInverseInPlace => Some(f.inv(t).unwrap_or_default()),
+        FDouble | FDoubleInPlace => Some(f.mul(t, &f.inv(&N::from(2u32)).unwrap())),
+        _ => None,
+    }
+}
+
+/// Chains built backwards from a *result*: one step's result has a Montgomery representation with a
+/// limb forced to a boundary pattern (`gen::mont_forced`); the operand (binary forms: rel = 5) or the
+/// accumulator (unary forms: the initial value, or a preceding step steered onto the preimage) is
+/// solved for. Reaches the final conditional subtraction / add-back of the generated field code.
+fn targeted_chain(bk: Bk, f: FId) -> BoxedStrategy<Case> {
+    let fld = f.fld();
+    let m = fld.m.clone();
+    let forms = forms_for(bk, f);
+    let n = forms.len();
+    (any::<u16>(), gen::mont_forced(&m), gen::fe(&m), any::<bool>(), any::<bool>(), step(forms.clone(), m.clone()))
+        .prop_map(move |(i, t, init, lead, neg_root, tail)| {
+            let form = forms[pick(i, n)];
+            let plain = |form: FForm, rel: u8, y: Num| Step { form, x: Num(N::zero()), y, limbs: vec![], n: 2, flag: true, rel, rk: 0, rv: 0 };
+            let mut steps = Vec::new();
+            let mut init = init;
+            match unary_preimage(fld, form, &t.0) {
+                Some(mut pre) => {
+                    if neg_root && matches!(form, FForm::InhSquare | FForm::FSquare | FForm::FSquareInPlace) {
+                        pre = fld.neg(&pre);
+                    }
+                    if lead {
+                        steps.push(plain(FForm::AddVal, 5, Num(pre)));
+                    } else {
+                        init = Num(pre);
+                    }
+                    steps.push(plain(form, 0, t));
+                }
+                None => {
+                    if lead {
+                        steps.push(Step { rel: 0, ..tail.clone() });
+                    }
+                    steps.push(plain(form, 5, t));
+                }
+            }
+            if neg_root {
+                steps.push(tail);
+            }
+            Case { bk, f, init, steps }
+        })
+        .boxed()
+}
+
 fn chain(bk: Bk, f: FId, max_len: usize) -> BoxedStrategy<Case> {
     let m = f.fld().m.clone();
     (gen::fe(&m), proptest::collection::vec(step(forms_for(bk, f), m.clone()), 1..=max_len)).prop_map(move |(init, steps)| Case { bk, f, init, steps }).boxed()
@@ -535,8 +635,10 @@ impl Property for C10 {
         "cases: chains of 1..=6 operations on an accumulator, for each of Fq/Fr/Fp on each backend, over every operator and method form (24 \
          operator impls with T/&T/&mut T right-hand sides, inherent add/sub/mul/neg/square/inverse, Sum/Product over owned and borrowed iterators \
          of 0..=3 items; ark: Field::{double, double_in_place, neg_in_place, square, square_in_place, inverse, inverse_in_place, pow, \
-         sum_of_products, frobenius, Zero/One}; Fq: power with 0..=4 exponent limbs, conditional_select/assign/swap, ct_eq); operands from the \
-         structured field generator (limb patterns, 0, 1, p-1, (p+-1)/2, 2^k+-1). Oracle: the integer operation mod p in BigUint, compared through \
+         sum_of_products, frobenius, Zero/One}; Fq: power / ark pow with 0..=9 exponent limbs, conditional_select/assign/swap, ct_eq); operands from the \
+         structured field generator (limb patterns, 0, 1, p-1, (p+-1)/2, 2^k+-1), operands related to the accumulator, and chains solved backwards \
+         from a result whose Montgomery representation has a limb forced to 0 / 1 / 2^32-1 / the modulus' limb +-1 (operand or accumulator \
+         preimage computed by the model). Oracle: the integer operation mod p in BigUint, compared through \
          to_bytes_le (must be the canonical 32/48-byte form) after every step. Non-trivial: chain with a non-uniform operand or a form outside \
          {+,-,*,square,inverse}; distinct by digest"
             .into()
@@ -560,6 +662,12 @@ impl Property for C10 {
             3 => chain(Bk::Min, FId::Fq, n),
             2 => chain(Bk::Min, FId::Fr, n),
             2 => chain(Bk::Min, FId::Fp, n),
+            1 => targeted_chain(Bk::Ark, FId::Fq),
+            1 => targeted_chain(Bk::Ark, FId::Fr),
+            1 => targeted_chain(Bk::Ark, FId::Fp),
+            2 => targeted_chain(Bk::Min, FId::Fq),
+            2 => targeted_chain(Bk::Min, FId::Fr),
+            2 => targeted_chain(Bk::Min, FId::Fp),
         ]
         .boxed()
     }
@@ -578,8 +686,19 @@ impl Property for C10 {
                     (m - 2u32, N::from(2u32)),
                     ((N::one() << 64) - 1u32, (N::one() << 32) - 1u32),
                 ];
+                // operands whose inversion needs the most division steps found by guided search
+                for (_, x) in crate::hard_inverse::hard_operands(f.fld().bits) {
+                    for form in [FForm::InhInverse, FForm::DivVal, FForm::DivAssignRef, FForm::FInverse] {
+                        if !forms_for(bk, f).contains(&form) {
+                            continue;
+                        }
+                        let unary = matches!(form, FForm::InhInverse | FForm::FInverse);
+                        let init = if unary { x.clone() } else { N::from(5u32) };
+                        v.push(Case { bk, f, init: Num(init), steps: vec![Step { form, x: Num(x.clone()), y: Num(N::one()), limbs: vec![], n: 2, flag: true, rel: 0, rk: 0, rv: 0 }] });
+                    }
+                }
                 // small exponents FIRST: a linear-time `power` must be exposed before any large limb is tried
-                let exps: Vec<Vec<u64>> = vec![vec![], vec![0], vec![1], vec![2], vec![3, 0], vec![0, 1], vec![5, 1], vec![2, 0, 0, 1], vec![0, 0, 0, 0], vec![1, 1, 1, 1]];
+                let exps: Vec<Vec<u64>> = vec![vec![], vec![0], vec![1], vec![2], vec![3, 0], vec![0, 1], vec![5, 1], vec![2, 0, 0, 1], vec![0, 0, 0, 0], vec![1, 1, 1, 1], vec![0, 0, 0, 0, 1], vec![1, 0, 0, 0, 0, 0, 0, 2], vec![3, 0, 0, 0, 0, 0]];
                 for form in forms_for(bk, f) {
                     for (a, b) in &pairs {
                         if matches!(form, FForm::FPow | FForm::Power) {
@@ -649,6 +768,10 @@ impl Property for C10 {
             for f in [FId::Fq, FId::Fr, FId::Fp] {
                 for form in forms_for(bk, f) {
                     v.push(format!("{}:{}:{}", bk.name(), f.name(), form.name()));
+                }
+                v.push(format!("{}:{}:result-mont-low-limb-boundary", bk.name(), f.name()));
+                if bk == Bk::Min {
+                    v.push(format!("min:{}:inverse-divsteps>={}", f.name(), match f.fld().bits { 377 => 885, 253 => 600, _ => 595 }));
                 }
             }
         }
